@@ -75,6 +75,18 @@ def run(ctx):
         for k in range(ctx.pick(2, 6)):
             i += 1
             scs.append(flight_scenario(rng, i, 8, 300, [1], False, '', late=late))
+    # a timeout, then the whole window acknowledged, then the FIRST NEW segment is lost: the duplicate ACKs that follow
+    # acknowledge exactly what was outstanding at the timeout (the boundary of the "recover" rule)
+    for k in range(ctx.pick(3, 12)):
+        i += 1
+        first = rng.choice([2, 3, 4])
+        mss = 300 - 52
+        s = dict(v=4, mtu=300, sack=(k % 3 == 2), cc='', deadline_ms=45000, seed=i + 1, flags={}, sync=True,
+                 a=dict(writes=[first * mss, 8 * mss], write_gap_us=3500000, shutdown=True), b=dict(writes=[], shutdown=True),
+                 tag='rto-then-firstnew-lost-%d-first%d' % (k, first))
+        rules = [dict(kind='data', nth=1, upto=first, act='drop'), dict(kind='data', nth=2 * first + 1, act='drop')]
+        s['a2b'] = dict(rules=rules)
+        scs.append(s)
     # emulated RTT
     for k in range(ctx.pick(4, 30)):
         i += 1
